@@ -30,8 +30,12 @@ class TwoProc:
     """prejudge hook: run the same cases in a second, fresh set of processes and remember those outputs"""
     def __init__(self, fam): self.fam = fam; self.second = {}
     def __call__(self, cases, impl, model):
-        again = core.run_lines(core.harness_exe(), self.fam.sub, cases, shards=max(2, core.NPROC // 2), env=self.fam.env)
-        self.second = dict(zip(cases, again))
+        # second run: fresh processes AND another history inside each process (the case list is fed in reverse order), so that
+        # state surviving from one solve to the next in the same process/thread (a static counter, a thread_local, a cache
+        # that is not reset) shows as a difference too (seeded change C16d: thread-local pricing counter in the simplex)
+        rev = cases[::-1]
+        again = core.run_lines(core.harness_exe(), self.fam.sub, rev, shards=max(2, core.NPROC // 2), env=self.fam.env)
+        self.second = dict(zip(rev, again))
 
 def mk_family(name, sub, gen, judge_fn=None, split=None):
     fam = Family(name, sub, gen, split=split, nontrivial=lambda c, i: ("sols -" not in i), prop_judge=None)
